@@ -3,7 +3,7 @@
 OPAQUE = ["ext:inspect.stack", "ext:inspect.getframeinfo", "ext:pathlib.Path"]
 
 CLASSES = {
-    "FcpError": {"kind": "heap", "module": "fcp.error", "fields": {}},
+    "FcpError": {"kind": "heap", "module": "fcp.error", "fields": {"msg": "any"}},
 }
 
 
